@@ -283,7 +283,7 @@ pub fn run(cfg: &Cfg) -> i32 {
             }
         }
         let strat = gen::raw_hist_strategy(0, 30);
-        engine::pbt(ctx, seedf(1), cfg.per_shard(600_000, 12_000_000), &strat, |ctx, raw: &RawHist| {
+        engine::pbt(ctx, seedf(1), cfg.per_shard(4_000_000, 60_000_000), &strat, |ctx, raw: &RawHist| {
             let (_, start) = match gen::start_of(raw) {
                 Some(x) => x,
                 None => {
